@@ -23,6 +23,7 @@ type Clause struct {
 type LoopSpec struct {
 	Invariants []Clause
 	Decreases  *Clause
+	Complete   bool // the loop is left only through its header condition (no break / return inside): every element is processed
 }
 
 type GhostUpdate struct {
@@ -272,6 +273,8 @@ func (ss *SpecSet) LoadContractFile(path string, pkgPath string) error {
 					return err
 				}
 				ls.Decreases = &c
+			case "complete":
+				ls.Complete = true
 			case "unroll":
 				k, err := strconv.Atoi(strings.TrimSpace(r3))
 				if err != nil {
